@@ -46,7 +46,7 @@ _worlds = {}
 def world(layout="recursive", toy=False, features=None):
     key = (layout, toy, features)
     if key not in _worlds:
-        feats = DEFAULT_FEATURES if features is None else features
+        feats = ((DEFAULT_FEATURES - {"recursive"}) | {layout} if layout else DEFAULT_FEATURES) if features is None else features
         _worlds[key] = World(layout=layout, features=feats, extra_files=[TOY] if toy else [])
     return _worlds[key]
 
